@@ -453,7 +453,12 @@ def check_local(spec, hist):
         dspec = op.get("range") or op.get("dist")
         if not reached or isinstance(dspec, dict):
             continue
-        need = int(gen.to_feet(dspec) / calc_step[op["calc"]]) - 2
+        # fire: the range is horizontal; zero / elev: the distance is along the sight line and the pass ends at its
+        # horizontal projection - the path is at least that long whatever the elevation tried
+        lk = sh["look"]
+        lk = spec["world"]["qpool"][lk["ref"]] if isinstance(lk, dict) else lk
+        horiz = gen.to_feet(dspec) * (1.0 if op["op"] == "fire" else math.cos(math.radians(gen.to_deg(lk))))
+        need = int(horiz / calc_step[op["calc"]]) - 2
         if r["steps"] < need:
             bad("step.fewer_steps_than_distance_over_maximum", i,
                 f"{op['op']} to {gen.to_feet(dspec)!r} ft took {r['steps']} integration steps; with a maximum step of "
